@@ -173,6 +173,8 @@ def run(ctx):
     rule_identity(ctx)
     rule_new_owner(ctx)
     c03.rule_api_handout(ctx)      # the position has moved: a raise after the hand-out loses records the next commit covers
+    from .common import rule_explicit_partitions_kept
+    rule_explicit_partitions_kept(ctx, "handout")
     from .common import rule_instance_state
     rule_instance_state(ctx, ("aiokafka.consumer.",))
     rep.nd("the group-wide at-least-once consequence across crashes (needs histories)")
